@@ -5,6 +5,7 @@ import (
 	"fmt"
 	"os"
 	"sort"
+	"sync/atomic"
 	"syscall"
 
 	"bazil.org/fuse"
@@ -420,6 +421,15 @@ func (c *Conn) journalHeader(j *jstate, nosync bool) []byte {
 	return h
 }
 
+// nonceSeq makes the checksum nonces of one process distinct: SQLite draws
+// them from its PRNG (a collision has probability 2^-32), while a minimised
+// tape would otherwise make them all equal and stale journal records valid.
+var nonceSeq atomic.Uint32
+
+func (c *Conn) newNonce() uint32 {
+	return uint32(c.T.Next(1<<20))<<12 | (nonceSeq.Add(1) & 0xfff) | 1<<31
+}
+
 func journalCksum(data []byte, nonce uint32) uint32 {
 	c := nonce
 	for i := len(data) - 200; i > 0; i -= 200 {
@@ -546,7 +556,7 @@ func (c *Conn) WriteTx(prog TxProgram, ref *Image) (res TxResult) {
 	if e := c.openJournal(); e != 0 {
 		return fail("journal-open", e)
 	}
-	j := &jstate{nonce: 1 + uint32(c.T.Next(1<<30)), origSize: origSize}
+	j := &jstate{nonce: c.newNonce(), origSize: origSize}
 	if e := c.jwrite(0, c.journalHeader(j, prog.NoSync)); e != 0 {
 		return fail("journal-header", e)
 	}
@@ -667,7 +677,7 @@ func (c *Conn) WriteTx(prog TxProgram, ref *Image) (res TxResult) {
 				j.hdrOff = c.sectorAlign(j.off)
 				j.nRec = 0
 				// writeJournalHdr() draws a fresh checksum nonce for every header
-				j.nonce = 1 + uint32(c.T.Next(1<<30))
+				j.nonce = c.newNonce()
 				if e := c.jwrite(j.hdrOff, c.journalHeader(j, prog.NoSync)); e != 0 {
 					return fail("journal-header2", e)
 				}
